@@ -213,6 +213,7 @@ CHECKS["C17"] = {
         {"harness": "VerifC17V1", "params": {"k": 3, "keyspace": 1}, "prune": 1000},
         {"harness": "VerifC17V2Seq", "params": {}},
         {"harness": "VerifC17V2Wake", "params": {"samekey": [0, 1]}},
+        {"harness": "VerifC17V2AwaitIntf", "params": {}},
         {"harness": "VerifC17V2Mixed", "params": {}},
         {"harness": "VerifC17V2Mixed", "params": {}, "reversemaps": True},
         {"harness": "VerifC17V2Partial", "params": {"wrongtype": [0, 1]}},
@@ -223,6 +224,7 @@ CHECKS["C17"] = {
         {"harness": "VerifC17V1", "params": {"k": [3, 4, 5], "keyspace": 1}, "prune": 1000, "timeout_ms": 600000, "case_timeout_s": 14000},
         {"harness": "VerifC17V2Seq", "params": {}, "cross": True},
         {"harness": "VerifC17V2Wake", "params": {"samekey": [0, 1]}, "cross": True},
+        {"harness": "VerifC17V2AwaitIntf", "params": {}, "cross": True},
         {"harness": "VerifC17V2Mixed", "params": {}, "cross": True},
         {"harness": "VerifC17V2Mixed", "params": {}, "reversemaps": True, "cross": True},
         {"harness": "VerifC17V2Partial", "params": {"wrongtype": [0, 1]}, "cross": True},
